@@ -63,6 +63,7 @@ class Tracer:
         self.auto = set()     # tids whose rounds are derived from what they do (wait_for_ecu)
         self.next_tid = 1
         self.orig_sleep = None
+        self.main = None      # the harness' own coroutine
         self.misuse = []      # (index into sched, tid, label, holder) wire ops completed by a task that does not hold the lock
 
     # -- task identities
@@ -80,8 +81,15 @@ class Tracer:
         return i
 
     def tid(self):
+        """identity of the current task; a task nobody announced (e.g. an inner task created by shield() / wait_for() /
+        create_task() inside the client) gets one on first sight: it has no program in the model, so whatever it does on
+        the lock or the transport is reported"""
         t = asyncio.current_task()
-        return self.ids.get(t)
+        if t is None or t is self.main:
+            return None
+        if t not in self.ids:
+            self.register(t)
+        return self.ids[t]
 
     def _ended(self, t, i):
         if t.cancelled():
@@ -389,6 +397,7 @@ async def scenario(spec, cancel_at):
 
     G = {"MissingResponse": MissingResponse, "IllegalResponse": IllegalResponse}
     tr = Tracer()
+    tr.main = asyncio.current_task()
     tr.cancel_at = cancel_at
     tr.orig_sleep = asyncio.sleep
     orig_sleep, orig_create_task = asyncio.sleep, asyncio.create_task
